@@ -1,12 +1,398 @@
-//! C14 — (stub: no ops yet)
+//! C14 — posterior error probabilities from kernel density estimates (`sage_core::ml::kde`)
+//!   kde [n (u64 score, decoy)…] bins u64(bw_adjust factor) mono [m u64 sweep…]  ->  [m u64 pep…]
+//!       Builder::default().monotonic(mono).bins(bins).bw_adjust(|x| x * factor).build(scores, decoys),
+//!       then Estimator::posterior_error at every sweep point. The first `bins` sweep points are the
+//!       grid points `i as f64 * step + min` (so the reply starts with the implementation's own grid).
 use super::Info;
-use crate::proto::{Case, Rng, Tier, Toks};
+use crate::proto::{Case, Out, Rng, Tier, Toks};
+use sage_core::ml::kde::Builder;
+use std::sync::OnceLock;
 
-pub const OPS: &[&str] = &[];
-pub const INFO: Info = Info { rule: "", serial: false };
+pub const OPS: &[&str] = &["kde"];
+pub const INFO: Info = Info {
+    rule: "score samples with both classes present: overlapping / separated / tight-decoy / 1:1000 imbalance / \
+           duplicated (few distinct values) / tiny (2+2) / large common offset; n 4..400 (quick) or ..3000 \
+           (thorough); bins in {2,3,7,100,1000}; bw_adjust in {1,2,0.1}; monotonic on/off; sweep = every grid \
+           point (as the code computes it) + every midpoint + the neighbouring floats of grid points + random \
+           interior points + both end points. Every stream except `zero-variance` has >= 2 distinct scores in \
+           each class; every stream except `gap-underflow` has, at every grid point, a sample of some class \
+           within 30 bandwidths. Each case runs in a rayon pool of 1..4 threads chosen from the request \
+           (perturbs the parallel reduction order). non-trivial = both classes present with >= 2 distinct scores \
+           each and bins >= 2",
+    serial: false,
+};
 
-pub fn gen(_rng: &mut Rng, _tier: Tier, _emit: &mut dyn FnMut(Case)) {}
+fn pool(k: usize) -> &'static rayon::ThreadPool {
+    static POOLS: OnceLock<Vec<rayon::ThreadPool>> = OnceLock::new();
+    let pools = POOLS.get_or_init(|| {
+        (1..=4).map(|n| rayon::ThreadPoolBuilder::new().num_threads(n).build().expect("pool")).collect()
+    });
+    &pools[k % pools.len()]
+}
 
-pub fn exec(_op: &str, _t: &mut Toks) -> Option<String> {
-    None
+struct KdeCase {
+    scores: Vec<f64>,
+    decoys: Vec<bool>,
+    bins: usize,
+    bw: f64,
+    mono: bool,
+    sweep: Vec<f64>,
+}
+
+fn request(c: &KdeCase) -> String {
+    let mut o = Out::new();
+    o.raw("kde").n(c.scores.len());
+    for (s, d) in c.scores.iter().zip(&c.decoys) {
+        o.f64(*s).b(*d);
+    }
+    o.n(c.bins).f64(c.bw).b(c.mono).n(c.sweep.len());
+    for s in &c.sweep {
+        o.f64(*s);
+    }
+    o.finish()
+}
+
+fn gauss(rng: &mut Rng) -> f64 {
+    // Box–Muller
+    let u1 = (rng.unit() + 1e-300).min(1.0);
+    let u2 = rng.unit();
+    (-2.0 * u1.ln()).sqrt() * (2.0 * std::f64::consts::PI * u2).cos()
+}
+
+fn min_max(scores: &[f64]) -> (f64, f64) {
+    let mut lo = f64::MAX;
+    let mut hi = f64::MIN;
+    for s in scores {
+        lo = lo.min(*s);
+        hi = hi.max(*s);
+    }
+    (lo, hi)
+}
+
+fn next_up(x: f64) -> f64 {
+    if x.is_nan() || x == f64::INFINITY {
+        return x;
+    }
+    if x == 0.0 {
+        return f64::from_bits(1);
+    }
+    let b = x.to_bits();
+    f64::from_bits(if x > 0.0 { b + 1 } else { b - 1 })
+}
+fn next_down(x: f64) -> f64 {
+    -next_up(-x)
+}
+
+/// grid points exactly as `Builder::build` computes them
+fn grid(scores: &[f64], bins: usize) -> Vec<f64> {
+    let (lo, hi) = min_max(scores);
+    let step = (hi - lo) / (bins - 1) as f64;
+    (0..bins).map(|b| (b as f64 * step) + lo).collect()
+}
+
+fn sweep(rng: &mut Rng, scores: &[f64], bins: usize, extra: usize) -> Vec<f64> {
+    let (lo, hi) = min_max(scores);
+    let g = grid(scores, bins);
+    let inside = |x: f64| x >= lo && x <= hi;
+    let mut sw = g.clone();
+    sw.push(lo);
+    sw.push(hi);
+    for w in g.windows(2) {
+        let m = w[0] + (w[1] - w[0]) / 2.0;
+        if inside(m) {
+            sw.push(m);
+        }
+    }
+    // floats adjacent to grid points (bin selection / interpolation weight boundaries)
+    let stride = (bins / 40).max(1);
+    for (i, &x) in g.iter().enumerate() {
+        if i % stride == 0 || i + 2 >= bins {
+            for y in [next_down(x), next_up(x)] {
+                if inside(y) {
+                    sw.push(y);
+                }
+            }
+        }
+    }
+    for _ in 0..extra {
+        let x = lo + (hi - lo) * rng.unit();
+        if inside(x) {
+            sw.push(x);
+        }
+    }
+    // the data points themselves are what the callers ask for
+    for _ in 0..extra.min(scores.len()) {
+        sw.push(*rng.pick(scores));
+    }
+    sw
+}
+
+fn distinct(xs: &[f64]) -> usize {
+    let mut v: Vec<u64> = xs.iter().map(|x| x.to_bits()).collect();
+    v.sort();
+    v.dedup();
+    v.len()
+}
+
+fn std_of(xs: &[f64]) -> f64 {
+    let m = xs.iter().sum::<f64>() / xs.len() as f64;
+    (xs.iter().map(|x| (x - m) * (x - m)).sum::<f64>() / xs.len() as f64).sqrt()
+}
+
+/// generator-side precondition of the non-finding streams: at every grid point some sample of some class
+/// lies within 30 bandwidths (so the two densities cannot both underflow to 0)
+fn dense(c: &KdeCase) -> bool {
+    let mut cls: Vec<(Vec<f64>, f64)> = Vec::new();
+    for want in [true, false] {
+        let mut xs: Vec<f64> =
+            c.scores.iter().zip(&c.decoys).filter(|(_, d)| **d == want).map(|(s, _)| *s).collect();
+        xs.sort_by(|a, b| a.total_cmp(b));
+        let h = std_of(&xs) * (4.0 / 3.0 / xs.len() as f64).powf(0.2) * c.bw;
+        cls.push((xs, h));
+    }
+    grid(&c.scores, c.bins).iter().all(|&g| {
+        cls.iter().any(|(xs, h)| {
+            let i = xs.partition_point(|x| *x < g);
+            let mut d = f64::INFINITY;
+            if i < xs.len() {
+                d = d.min((xs[i] - g).abs());
+            }
+            if i > 0 {
+                d = d.min((xs[i - 1] - g).abs());
+            }
+            d <= 30.0 * h
+        })
+    })
+}
+
+fn well_formed(c: &KdeCase) -> bool {
+    let d: Vec<f64> = c.scores.iter().zip(&c.decoys).filter(|(_, d)| **d).map(|(s, _)| *s).collect();
+    let t: Vec<f64> = c.scores.iter().zip(&c.decoys).filter(|(_, d)| !**d).map(|(s, _)| *s).collect();
+    distinct(&d) >= 2 && distinct(&t) >= 2 && c.bins >= 2
+}
+
+fn sample(rng: &mut Rng, shape: &str, n: usize) -> (Vec<f64>, Vec<bool>) {
+    let mut scores = Vec::new();
+    let mut decoys = Vec::new();
+    let mut push = |s: f64, d: bool| {
+        scores.push(s);
+        decoys.push(d);
+    };
+    match shape {
+        "overlapping" => {
+            let mu = 0.5 + 2.5 * rng.unit();
+            for _ in 0..n {
+                if rng.chance(1, 2) {
+                    push(gauss(rng), true)
+                } else if rng.chance(1, 3) {
+                    push(gauss(rng), false) // incorrect targets look like decoys
+                } else {
+                    push(mu + 1.5 * gauss(rng), false)
+                }
+            }
+        }
+        "separated" => {
+            let mu = 4.0 + 6.0 * rng.unit();
+            for _ in 0..n {
+                if rng.chance(1, 2) {
+                    push(gauss(rng), true)
+                } else {
+                    push(mu + gauss(rng), false)
+                }
+            }
+        }
+        "tight-decoy" => {
+            let sd = *rng.pick(&[0.3, 0.1, 0.03]);
+            for _ in 0..n {
+                if rng.chance(1, 3) {
+                    push(sd * gauss(rng), true)
+                } else {
+                    push(1.0 + 2.0 * gauss(rng), false)
+                }
+            }
+        }
+        "imbalance" => {
+            // about one decoy per 1000 targets (or the other way round), at least two of the rare class
+            let flip = rng.chance(1, 4);
+            let rare = 2 + n / 1000;
+            for _ in 0..rare {
+                push(gauss(rng), !flip);
+            }
+            for _ in 0..n.max(1000) {
+                push(2.0 + 1.5 * gauss(rng), flip);
+            }
+        }
+        "duplicated" => {
+            let levels = 2 + rng.below(6);
+            for _ in 0..n {
+                let d = rng.chance(1, 2);
+                let k = rng.below(levels) as f64 + if d { 0.0 } else { 2.0 };
+                push(k * 0.5, d);
+            }
+        }
+        "tiny" => {
+            for d in [true, true, false, false] {
+                push((rng.range(-8, 8) as f64) * 0.25 + if d { 0.0 } else { 1.0 }, d);
+            }
+        }
+        _ => unreachable!(),
+    }
+    // make sure both classes are present with two distinct values (rare for small n)
+    for d in [true, false] {
+        let xs: Vec<f64> = scores.iter().zip(&decoys).filter(|(_, x)| **x == d).map(|(s, _)| *s).collect();
+        if distinct(&xs) < 2 {
+            let base = if d { 0.0 } else { 2.0 };
+            scores.push(base - 0.75);
+            decoys.push(d);
+            scores.push(base + 0.5);
+            decoys.push(d);
+        }
+    }
+    // input order is arbitrary for the callers
+    let mut ix: Vec<usize> = (0..scores.len()).collect();
+    rng.shuffle(&mut ix);
+    (ix.iter().map(|&i| scores[i]).collect(), ix.iter().map(|&i| decoys[i]).collect())
+}
+
+fn emit_case(c: KdeCase, shape: &'static str, emit: &mut dyn FnMut(Case)) {
+    let wf = well_formed(&c);
+    let dn = wf && dense(&c);
+    let bins_tag = match c.bins {
+        2 => "bins=2",
+        3 => "bins=3",
+        7 => "bins=7",
+        100 => "bins=100",
+        1000 => "bins=1000",
+        _ => "bins=other",
+    };
+    emit(Case::new(request(&c))
+        .tag(shape)
+        .tag(bins_tag)
+        .tag(if c.mono { "monotonic" } else { "non-monotonic" })
+        .tag_if(c.bw != 1.0, "bw-adjusted")
+        .tag_if(!wf, "zero-variance")
+        .tag_if(wf && !dn, "gap-underflow")
+        .nontrivial(wf));
+}
+
+pub fn gen(rng: &mut Rng, tier: Tier, emit: &mut dyn FnMut(Case)) {
+    let quick = tier == Tier::Quick;
+    let shapes: &[&'static str] = &["overlapping", "separated", "tight-decoy", "imbalance", "duplicated", "tiny"];
+    let rounds = if quick { 30 } else { 400 };
+    let max_n = if quick { 400 } else { 3000 };
+    for round in 0..rounds {
+        for &shape in shapes {
+            let n = 4 + rng.below(if round % 5 == 0 { max_n } else { 60 });
+            let (mut scores, decoys) = sample(rng, shape, n);
+            // a common offset makes the grid arithmetic ill-conditioned (|min| >> step)
+            let offset = *rng.pick(&[0.0, 0.0, 0.0, -3.0, 100.0, 12345.678]);
+            let scale = *rng.pick(&[1.0, 1.0, 1.0, 0.001, 40.0]);
+            for s in scores.iter_mut() {
+                *s = *s * scale + offset;
+            }
+            let bins = match rng.below(10) {
+                0 => 2,
+                1 => 3,
+                2 => 7,
+                3 | 4 => 1000,
+                _ => 100,
+            };
+            let bins = if shape == "imbalance" && bins == 1000 && quick { 100 } else { bins };
+            // the two configurations the callers use, plus the mixed ones
+            let (mono, bw) = match rng.below(6) {
+                0 | 1 | 2 => (true, 1.0),
+                3 => (false, 2.0),
+                4 => (false, 0.1),
+                _ => (rng.chance(1, 2), *rng.pick(&[1.0, 2.0, 0.1, 0.5])),
+            };
+            let extra = if quick { 40 } else { 200 };
+            let sw = sweep(rng, &scores, bins, extra);
+            let mut c = KdeCase { scores, decoys, bins, bw, mono, sweep: sw };
+            // keep the ordinary streams inside the precondition: with the envelope off, a grid point farther
+            // than ~38 bandwidths from every sample has both densities = 0 (0/0); such cases go to their own
+            // stream below
+            if !c.mono && !dense(&c) {
+                c.mono = true;
+            }
+            emit_case(c, shape, emit);
+        }
+    }
+
+    // ---- directed: the known defect (a class with zero score variance) — small separate stream
+    for k in 0..(if quick { 6 } else { 40 }) {
+        let mut scores = vec![1.0, 2.0, 3.0, 4.0];
+        let mut decoys = vec![false; 4];
+        match k % 3 {
+            0 => {
+                scores.push(0.5 + k as f64);
+                decoys.push(true);
+            }
+            1 => {
+                for _ in 0..3 {
+                    scores.push(0.25 * k as f64);
+                    decoys.push(true);
+                }
+            }
+            _ => {
+                // all targets equal, decoys spread
+                scores = vec![2.0; 3];
+                decoys = vec![false; 3];
+                for j in 0..4 {
+                    scores.push(j as f64 * 0.5 + k as f64 * 0.125);
+                    decoys.push(true);
+                }
+            }
+        }
+        let bins = *rng.pick(&[2usize, 100]);
+        let sw = sweep(rng, &scores, bins, 5);
+        emit_case(KdeCase { scores, decoys, bins, bw: 1.0, mono: k % 2 == 0, sweep: sw }, "directed-zero-variance", emit);
+    }
+
+    // ---- directed: two tight clusters far apart, envelope off: both densities underflow in the gap
+    for k in 0..(if quick { 4 } else { 30 }) {
+        let mut scores = Vec::new();
+        let mut decoys = Vec::new();
+        for _ in 0..20 {
+            scores.push(0.05 * gauss(rng));
+            decoys.push(true);
+            scores.push(10.0 + k as f64 + 0.05 * gauss(rng));
+            decoys.push(false);
+        }
+        let bins = 100;
+        let sw = sweep(rng, &scores, bins, 10);
+        emit_case(KdeCase { scores, decoys, bins, bw: 1.0, mono: k % 2 == 1, sweep: sw }, "directed-gap", emit);
+    }
+}
+
+pub fn exec(op: &str, t: &mut Toks) -> Option<String> {
+    match op {
+        "kde" => exec_kde(t),
+        _ => None,
+    }
+}
+
+fn exec_kde(t: &mut Toks) -> Option<String> {
+    let pairs = t.list(|t| Some((t.f64()?, t.bool()?)))?;
+    let bins = t.usize()?;
+    let bw = t.f64()?;
+    let mono = t.bool()?;
+    let sweep = t.list(|t| t.f64())?;
+    if !t.done() {
+        return None;
+    }
+    let scores: Vec<f64> = pairs.iter().map(|p| p.0).collect();
+    let decoys: Vec<bool> = pairs.iter().map(|p| p.1).collect();
+    // pool size derived from the request: replays are deterministic, different cases see different
+    // reduction trees inside Kde::pdf
+    let k = scores.iter().fold(pairs.len() as u64, |h, s| h.wrapping_mul(0x100000001b3) ^ s.to_bits()) as usize;
+    let out: Vec<f64> = pool(k >> 7).install(|| {
+        let est = Builder::default().monotonic(mono).bins(bins).bw_adjust(move |x| x * bw).build(&scores, &decoys);
+        sweep.iter().map(|s| est.posterior_error(*s)).collect()
+    });
+    let mut o = Out::new();
+    o.n(out.len());
+    for v in out {
+        o.f64(v);
+    }
+    Some(o.finish())
 }
